@@ -363,7 +363,7 @@ func sweepTruncations(t failer, rec []byte) int {
 }
 
 func TestC10StdlibHellos(t *testing.T) {
-	hx.Check(t, hx.Scale(3000, 50000), func(t *rapid.T) {
+	hx.Check(t, hx.Scale(8000, 50000), func(t *rapid.T) {
 		cfg, want := genClientConfig(t)
 		var rec []byte
 		var err error
@@ -532,7 +532,7 @@ func baseHellos() [][]byte {
 }
 
 func TestC10BuiltHellos(t *testing.T) {
-	hx.Check(t, hx.Scale(6000, 200000), func(t *rapid.T) {
+	hx.Check(t, hx.Scale(20000, 200000), func(t *rapid.T) {
 		base := rapid.SampledFrom(baseHellos()).Draw(t, "base")
 		fixed, exts, ok := splitHello(base)
 		if !ok {
@@ -674,7 +674,7 @@ func sniThroughProxy(stream []byte) (names []string) {
 }
 
 func TestC10ThroughSNIProxy(t *testing.T) {
-	hx.Check(t, hx.Scale(3000, 100000), func(t *rapid.T) {
+	hx.Check(t, hx.Scale(10000, 100000), func(t *rapid.T) {
 		base := rapid.SampledFrom(baseHellos()).Draw(t, "base")
 		fixed, exts, ok := splitHello(base)
 		if !ok {
@@ -749,7 +749,7 @@ func TestC10ThroughSNIProxy(t *testing.T) {
 // the handshake body (the headers stay consistent because the size does not
 // change). Whenever crypto/tls still accepts the bytes fabio must agree.
 func TestC10Corruptions(t *testing.T) {
-	hx.Check(t, hx.Scale(20000, 1000000), func(t *rapid.T) {
+	hx.Check(t, hx.Scale(80000, 1000000), func(t *rapid.T) {
 		base := rapid.SampledFrom(baseHellos()).Draw(t, "base")
 		rec := append([]byte(nil), base...)
 		n := rapid.IntRange(1, 4).Draw(t, "nmut")
